@@ -7,3 +7,7 @@ def qr_groups(tier, report, pre, rot):
 
 def bkldlt_groups(tier, report):
     return []
+
+
+def eigen_groups(tier, report):
+    return []
